@@ -18,4 +18,4 @@ def run(ctx):
         end_walks=((300, 7, 'mutate'), (5000, 10, 'mutate')),
         meta_rule='every MutateCallerCopy transition executed via its shortest prefix on 4 world constructions + random walks',
         assumptions=[],
-        focused=(100, 1500))
+        focused=(100, 600))
